@@ -11,6 +11,8 @@ From Irismod Require Import Genesis.Store.
 From Irismod Require Genesis.Record Genesis.RecordProofs.
 From Irismod Require Genesis.Coinswap Genesis.CoinswapProofs.
 From Irismod Require Genesis.Token Genesis.TokenProofs.
+From Irismod Require Genesis.Nft Genesis.NftProofs.
+From Irismod Require Genesis.Random Genesis.RandomProofs.
 
 (** ** record *)
 Module RecordC12.
@@ -128,3 +130,82 @@ Print Assumptions token_queries_preserved.
 Example token_nonvacuous : invb wit_s = true /\ query_by_mu wit_s 2 = Some (wit_tok 1 2).
 Proof. split; vm_compute; reflexivity. Qed.
 End TokenC12.
+
+(** ** nft *)
+Module NftC12.
+Import Genesis.Nft Genesis.NftProofs.
+
+Theorem nft_export_validates : forall s : state, invb s = true -> validate (export s) = true.
+Proof. exact nft_export_validates_lemma. Qed.
+Print Assumptions nft_export_validates.
+
+(** as stated it FAILS: ValidateGenesis looks neither at the creator of a class nor for repeated
+    class / NFT ids; InitGenesis panics on each of them *)
+Theorem nft_import_total_refuted : exists g : genesis, validate g = true /\ import g = None.
+Proof. exact nft_import_total_refuted_lemma. Qed.
+Print Assumptions nft_import_total_refuted.
+
+Theorem nft_import_total_partial :
+  forall g : genesis,
+    validate g = true -> NoDup (map fst g) ->
+    (forall c, In c g -> 0 <= d_creator (c_info c) /\ sortedb lt1 (c_nfts c) = true) ->
+    import g <> None.
+Proof. exact nft_import_total_partial_lemma. Qed.
+Print Assumptions nft_import_total_partial.
+
+Theorem nft_export_fixpoint :
+  forall s : state, invb s = true -> exists s', import (export s) = Some s' /\ export s' = export s.
+Proof. exact nft_export_fixpoint_lemma. Qed.
+Print Assumptions nft_export_fixpoint.
+
+(** classes, NFTs with their owners, the supply of every class, every owner's list *)
+Theorem nft_queries_preserved :
+  forall s : state, invb s = true -> exists s', import (export s) = Some s' /\ queries s' = queries s.
+Proof. exact nft_queries_preserved_lemma. Qed.
+Print Assumptions nft_queries_preserved.
+
+Example nft_nonvacuous : invb wit_s = true /\ supply_view wit_s = [(1, 2); (2, 0)].
+Proof. split; vm_compute; reflexivity. Qed.
+End NftC12.
+
+(** ** random: all four hold (results and oracle requests in flight are documented as dropped:
+    the durable objects are the pending requests); [tbl] is the byte order of the request ids *)
+Module RandomC12.
+Import Genesis.Random Genesis.RandomProofs.
+
+Theorem random_export_validates :
+  forall (tbl : list ((Z * Z) * Z)) (s : state), invb tbl s = true -> validate (export s) = true.
+Proof. exact random_export_validates_lemma. Qed.
+Print Assumptions random_export_validates.
+
+Theorem random_import_total :
+  forall (tbl : list ((Z * Z) * Z)) (g : genesis), validate g = true -> import tbl g <> None.
+Proof. exact random_import_total_lemma. Qed.
+Print Assumptions random_import_total.
+
+Theorem random_export_fixpoint :
+  forall (tbl : list ((Z * Z) * Z)) (s : state),
+    invb tbl s = true -> exists s', import tbl (export s) = Some s' /\ export s' = export s.
+Proof. exact random_export_fixpoint_lemma. Qed.
+Print Assumptions random_export_fixpoint.
+
+Theorem random_queries_preserved :
+  forall (tbl : list ((Z * Z) * Z)) (s : state),
+    invb tbl s = true -> exists s', import tbl (export s) = Some s' /\ queries s' = queries s.
+Proof. exact random_queries_preserved_lemma. Qed.
+Print Assumptions random_queries_preserved.
+
+(** after PrepForZeroHeightGenesis at block height [height] the queue is again a reachable one (so
+    the four theorems apply to it), provided every pending entry lies at or above [height] *)
+Theorem random_prep_keeps_invariant :
+  forall (tbl : list ((Z * Z) * Z)) (height : Z) (s : state),
+    invb tbl s = true -> 0 < height < two64 ->
+    forallb (fun e => (height <=? fst e) && (fst e <? two64)) s = true ->
+    invb tbl (prep height s) = true.
+Proof. exact random_prep_inv_lemma. Qed.
+Print Assumptions random_prep_keeps_invariant.
+
+Example random_nonvacuous :
+  invb wit_tbl wit_s = true /\ invb wit_tbl (prep 9 wit_s) = true /\ export (prep 9 wit_s) <> export wit_s.
+Proof. repeat split; vm_compute; try reflexivity; discriminate. Qed.
+End RandomC12.
